@@ -34,9 +34,16 @@ def main(seed, args):
             except Exception:
                 outs.append({})
                 print(f"[{prop}] run failed rc={r.returncode}: {r.stderr[-800:]}")
+            if r.returncode == 2:
+                print(f"[{prop}] harness trouble (rc=2) in the run with hashseed {hs}/{ex} executors: {r.stderr[-1200:]}")
             os.unlink(path)
         a, b = outs
-        diff = sorted(k for k in set(a) | set(b) if a.get(k) != b.get(k))
+        only_one = sorted(set(a) ^ set(b))
+        if only_one:
+            print(f"[{prop}] {len(only_one)} seeds were executed in one run only (harness trouble there, see its stderr): {only_one[:5]}")
+        diff = sorted(k for k in set(a) & set(b) if a.get(k) != b.get(k))
+        if only_one:
+            bad += 1
         print(f"[{prop}] seeds compared={len(set(a) & set(b))} differing={len(diff)} (driver hashseed 0/16 executors vs 5/4 executors)")
         if diff or not a:
             bad += 1
